@@ -1464,7 +1464,8 @@ Lemma offer_phase : forall fixed T a trs0,
     wfs T a2 (secs_of (d_media offer)) /\ extends (secs_of (d_media offer)) (S a) /\
     NoDup (map m_mid (d_media offer)) /\ app_unique (secs_of (d_media offer)) /\ kinds_ok (secs_of (d_media offer)) /\
     (forall t, In t (p_trs a2) -> offered T t /\ t_mid t <> None) /\
-    Forall (from_transceiver (p_trs a2)) (d_media offer).
+    Forall (from_transceiver (p_trs a2)) (d_media offer) /\
+    (forall t, In t (p_trs a2) -> exists ta, In ta (p_trs a) /\ t_kind t = t_kind ta /\ t_preferred t = t_preferred ta).
 Proof.
   intros fixed T a trs0 W Hoc.
   pose proof W as [W1 W2 W3 W4 W5 W6 W7 W8 W9 W10 W11].
@@ -1703,11 +1704,16 @@ Proof.
   split.
   { intros t Hin. rewrite Etrs in Hin. destruct (assign_new_elem _ _ _ _ _ Hns Hin) as [Qm [t0 [Q [Qk [_ [Qp [Qc [Qx _]]]]]]]].
     split; [|exact Qm]. unfold offered. rewrite Qk, Qp, Qc, Qx. apply C2. exact Q. }
+  split.
   { unfold ms. apply Forall_app. split; [|apply Forall_app; split].
     - eapply Forall_impl; [|exact X3]. intros m Hm Hav. destruct (Hm Hav) as [t [G1 G2]].
       exists t. split; [|exact G2]. rewrite Etrs. apply assign_new_keeps; [exact G1|]. destruct G2 as [G2 _]. congruence.
     - rewrite Etrs. apply (offer_new_from _ _ _ _ _ _ E2 []).
     - destruct Hout3 as [[-> _]|[m [s0 [-> _]]]]; constructor; [|constructor]. intro Hc. cbn in Hc. discriminate. }
+  { intros t Hin. rewrite Etrs in Hin. destruct (assign_new_elem _ _ _ _ _ Hns Hin) as [_ [t0 [Q [Qk [_ [Qp _]]]]]].
+    destruct (map_tinfo_In _ _ _ (eq_sym C1) Q) as [t1 [Hin1 E]]. apply tinfo_fields in E.
+    destruct E as [Ek [_ Ep]]. apply akey_fields in Ek. destruct Ek as [Ek _].
+    exists t1. split; [exact Hin1|]. split; congruence. }
 Qed.
 
 (* ---- (W) an exchange keeps both connections well-formed and in step ------------------------------------------ *)
@@ -1742,13 +1748,15 @@ Proof.
   assert (Eans : secs_of (d_media answer) = ss) by exact Msec.
   (* answerer *)
   assert (Wb1 : wfs T b1 ss).
-  { eapply set_remote_description_wfs; eauto; [apply wf_wfs_S; exact Wb | rewrite <- Hsync; exact G4]. }
+  { apply (set_remote_description_wfs fixed T b offer b1 (S b) H3);
+      [apply wf_wfs_S; exact Wb | rewrite <- Hsync; exact G4 | exact G5 | exact G6 | exact G7]. }
   destruct (create_answer_spec _ _ H4) as [_ [At _]].
   assert (Wb2 : wfs T b2 ss).
-  { rewrite <- Eans. eapply set_local_answer_wfs; eauto. rewrite Eans. exact Wb1. }
+  { rewrite <- Eans. apply (set_local_answer_wfs fixed T b1 answer b2 H5 At). rewrite Eans. exact Wb1. }
   (* offerer *)
   assert (Wa3 : wfs T a3 ss).
-  { rewrite <- Eans. eapply (set_remote_description_wfs fixed T a2 answer a3 ss); eauto.
+  { rewrite <- Eans. apply (set_remote_description_wfs fixed T a2 answer a3 ss H6).
+    - exact G3.
     - rewrite Eans. apply extends_refl.
     - rewrite <- secs_of_mids, Eans. unfold ss. rewrite secs_of_mids. exact G5.
     - rewrite Eans. exact G6.
